@@ -176,9 +176,12 @@ class Runtime:
         try:
             handler = self.handlers[type(request)]
         except KeyError as e:
-            raise TypeError(
-                f"No handler for request type {type(request).__qualname__}"
-            ) from e
+            # a default registered after this runtime was created
+            handler = _DEFAULT_HANDLERS.get(type(request))
+            if handler is None:
+                raise TypeError(
+                    f"No handler for request type {type(request).__qualname__}"
+                ) from e
 
         return handler(request)
 
